@@ -162,7 +162,9 @@ class C14(Check):
                 args = Rp.arguments.ADMMArguments(window_size=W, num_data_series=N, rho=rho, rho_update=None,
                                                   sparsity_weight=lam, absolute_tolerance=1e-6,
                                                   relative_tolerance=1e-6, max_iterations=1, verbose=False)
-                outs[idx] = Rp.solver.admm_update_z(args, u, x)
+                ok, outs[idx] = guarded(c, 'result_independent_of_earlier_calls', Rp.solver.admm_update_z, args, u, x)
+                if not ok:
+                    return
             # the cached index lists must still be what a fresh computation gives
             f = []
             uv = Rp.uv
